@@ -25,9 +25,9 @@ import (
 )
 
 type secretStats struct {
-	Ops, Scenarios, Secrets, Haystacks, Searches, DealPairs, WrongPasswords, RoundPairs int
-	OutcomeHist                                                                  map[string]int
-	Monitors, Notes, Samples                                                     []string
+	Ops, Scenarios, Secrets, Haystacks, Searches, DealPairs, WrongPasswords, RoundPairs, NoncesSeen int
+	OutcomeHist                                                                                     map[string]int
+	Monitors, Notes, Samples                                                                        []string
 }
 
 type secretRun struct {
@@ -256,6 +256,50 @@ func (r *secretRun) scenario(outDir string, n, t int) {
 			if same > 0 {
 				r.mon(fmt.Sprintf("C04 rounds_unrelated: %s machine %d deals in rounds %.8s and %.8s from secret polynomials that share %d of %d coefficients (constant term %v)", tag, i, p[0], p[1], same, len(ca), ca[0].Equal(cb[0])))
 				break
+			}
+		}
+	}
+	// (d') the Schnorr signatures a machine makes with its long-term key inside the broadcast responses must not reuse a
+	// nonce across rounds (same R with two different challenges gives the long-term private key away)
+	noncesOf := map[string]map[string]map[string]bool{} // round -> sender -> R (hex)
+	for _, m := range board {
+		if m.Event != "event_dkg_response_confirm_received" {
+			continue
+		}
+		var req requests.DKGProposalResponseConfirmationRequest
+		if json.Unmarshal(m.Data, &req) != nil {
+			continue
+		}
+		var rs []struct {
+			Response *struct{ Signature []byte }
+		}
+		if json.Unmarshal(req.Response, &rs) != nil {
+			continue
+		}
+		for _, x := range rs {
+			if x.Response == nil || len(x.Response.Signature) < 48 {
+				continue
+			}
+			if noncesOf[m.DkgRoundID] == nil {
+				noncesOf[m.DkgRoundID] = map[string]map[string]bool{}
+			}
+			if noncesOf[m.DkgRoundID][m.SenderAddr] == nil {
+				noncesOf[m.DkgRoundID][m.SenderAddr] = map[string]bool{}
+			}
+			noncesOf[m.DkgRoundID][m.SenderAddr][fmt.Sprintf("%x", x.Response.Signature[:48])] = true
+			r.st.NoncesSeen++
+		}
+	}
+	for _, p := range pairs {
+		for sender, na := range noncesOf[p[0]] {
+			shared := 0
+			for R := range na {
+				if noncesOf[p[1]][sender][R] {
+					shared++
+				}
+			}
+			if shared > 0 {
+				r.mon(fmt.Sprintf("C04 nonce_reuse: %s %s signs its responses in rounds %.8s and %.8s with %d identical nonce commitments (R): two such signatures give its long-term key away", tag, sender, p[0], p[1], shared))
 			}
 		}
 	}
